@@ -123,6 +123,23 @@ func genC15Plan(r *sim.Rng, tier string) RelayPlan {
 				}
 				pl.Ops = append(pl.Ops, RelayOp{Kind: "settle"}, RelayOp{Kind: "advance", Ms: 500})
 			}
+			if r.Bool(0.4) {
+				// ... then the publishers leave and the stalled player stays behind, across two sweeps (healthy players
+				// leave first: lal also sweeps players that have been fed nothing for two sweeps)
+				for c2 := range pl.Cons {
+					if !stall[c2] {
+						pl.Ops = append(pl.Ops, RelayOp{Kind: "leave", Cons: c2})
+					}
+				}
+				pl.Ops = append(pl.Ops, RelayOp{Kind: "settle"})
+				for s := 0; s < nStreams; s++ {
+					pl.Ops = append(pl.Ops, RelayOp{Kind: "stop_pub", Pub: s})
+				}
+				for i := 0; i < 27; i++ {
+					pl.Ops = append(pl.Ops, RelayOp{Kind: "settle"}, RelayOp{Kind: "advance", Ms: 10000})
+				}
+				break
+			}
 			// ... then a slow trickle across two sweeps
 			for i := 0; i < 27; i++ {
 				for s := 0; s < nStreams; s++ {
@@ -266,6 +283,20 @@ func CheckC15(k *sim.Kernel, rr *RelayRun) {
 			if pubActiveAfter-queueFullBy > 250000 {
 				k.Probe("c15_rtsp_sweep_judged")
 			}
+			// the publisher left and the stalled player stayed: nothing is written to it any more, so the sweep sees
+			// a dead writer whatever the state of its queue
+			pubLeft := false
+			for _, p := range rr.Pubs {
+				if p.Plan.Stream == c.Plan.Stream && p.Stopped {
+					pubLeft = true
+				}
+			}
+			if pubLeft && c.ResumedAtMs == 0 && rr.OpsEndMs-pubActiveAfter > 250000 && pubActiveAfter > c.StallAtMs {
+				if !c.ClosedAtEnd && c.BlockedAtEnd {
+					k.Violate("C15.stalled-not-disconnected", "%s stopped reading at %d ms; its publisher left after %d ms and %d ms later the liveness sweep still has not disconnected it", name, c.StallAtMs, pubActiveAfter, rr.OpsEndMs-pubActiveAfter)
+				}
+				k.Probe("c15_rtsp_sweep_after_pub_left")
+			}
 		} else if c.ResumedAtMs == 0 && pubActiveAfter-c.StallAtMs > 14000 && !c.ClosedByLal() {
 			var conn *sim.Conn
 			if c.Rtmp != nil {
@@ -347,6 +378,7 @@ func init() {
 			var pl RelayPlan
 			fromJSON(plan, &pl)
 			rr := ExecRelay(k, pl)
+			rr.OpsEndMs = k.NowMs()
 			// let stalled consumers drain what lal still has for them, then judge
 			for _, c := range rr.Cons {
 				if !c.Stalled {
